@@ -395,7 +395,8 @@ if "determinism.seed_zero_components" not in CATALOGUE:
         res = ReservoirSampler(size=5, seed=edge)
         rnd_pol = ep.RandomEviction(seed=edge)
         smp_pol = ep.SampledLRUEviction(sample_size=3, seed=edge)
-        shard = ConsistentHashSharding(virtual_nodes=8, seed=edge)
+        shard = ConsistentHashSharding(virtual_nodes=7, seed=edge)
+        shard_seeded = ConsistentHashSharding(virtual_nodes=8, seed=seed)  # same geometry, the scenario's own seed
 
         class Sampler(Entity):
             def __init__(self):
@@ -405,7 +406,7 @@ if "determinism.seed_zero_components" not in CATALOGUE:
 
             def handle_event(self, event):
                 i = event.context["metadata"]["i"]
-                self.samples.append([zipf.sample(), uni.sample()])
+                self.samples.append([zipf.sample(), uni.sample(), shard_seeded.get_shard(f"order-{i}", 5)])
                 res.add(i)
                 for pol in (rnd_pol, smp_pol):
                     pol.on_insert(f"k{i}")
@@ -416,7 +417,11 @@ if "determinism.seed_zero_components" not in CATALOGUE:
         class View:
             @property
             def state(self):
-                return {"reservoir": list(res.sample()), "shards": [shard.get_shard(f"user-{i}", 5) for i in range(20)]}
+                return {
+                    "reservoir": list(res.sample()),
+                    "shards": [shard.get_shard(f"user-{i}", 5) for i in range(20)],
+                    "shards_seeded": [shard_seeded.get_shard(f"user-{i}", 5) for i in range(20)],
+                }
 
         sampler = Sampler()
         sim = make_sim([sampler], 10.0)
@@ -539,3 +544,60 @@ if "determinism.mq_same_instant_requeue" not in CATALOGUE:
                 sim.schedule(ev(t, "go", rng.choice(prods), n=n))  # the same nanosecond for the whole burst
                 n += 1
         return Scenario(sim, {"mq": mq, "worker": worker}, "determinism", True, n)
+
+
+# configuration objects a user keeps at module level and passes to every build (a NODES list, a key universe):
+# the library must treat them as read-only
+_SHARED_NODES = ["n1", "n2", "n3", "n4", "n5"]
+_SHARED_KEYS = [f"key-{i}" for i in range(30)]
+_SHARED_GROUP_A = ["n1", "n2"]
+_SHARED_GROUP_B = ["n3", "n4", "n5"]
+
+if "determinism.shared_config_objects" not in CATALOGUE:
+
+    @scenario("determinism.shared_config_objects", "determinism")
+    def shared_config_objects(seed, params):
+        """Module-level lists handed to RandomPartition / NetworkPartition / Zipf / Uniform by every build of the
+        model: a second build in the same interpreter must see them unchanged."""
+        from happysimulator.components.network import Network, NetworkLink
+        from happysimulator.distributions.uniform import UniformDistribution
+        from happysimulator.distributions.zipf import ZipfDistribution
+        from happysimulator.faults import FaultSchedule, NetworkPartition, RandomPartition
+
+        rng = random.Random(seed)
+        net = Network("net")
+        zipf = ZipfDistribution(_SHARED_KEYS, s=1.2, seed=seed)
+        uni = UniformDistribution(_SHARED_NODES, seed=seed + 1)
+        nodes = {}
+
+        class Node(Entity):
+            def __init__(self, name):
+                super().__init__(name)
+                self.sent = 0
+                self.got = []
+
+            def handle_event(self, event):
+                if event.event_type == "tick":
+                    dst = uni.sample()
+                    if dst == self.name:
+                        return None
+                    self.sent += 1
+                    return [net.send(self, nodes[dst], "Msg", payload={"k": zipf.sample(), "from": self.name})]
+                md = event.context.get("metadata", {})
+                pl = md.get("payload") or event.context.get("payload") or {}
+                self.got.append([pl.get("from"), pl.get("k")])
+                return None
+
+        for n in _SHARED_NODES:
+            nodes[n] = Node(n)
+        names = list(nodes)
+        for i, a in enumerate(names):
+            for b in names[i + 1 :]:
+                net.add_bidirectional_link(nodes[a], nodes[b], NetworkLink(f"l-{a}-{b}", latency=ConstantLatency(0.002)))
+        fs = FaultSchedule()
+        fs.add(RandomPartition(_SHARED_NODES, mtbf=0.05, mttr=0.03, seed=seed))
+        fs.add(NetworkPartition(_SHARED_GROUP_A, _SHARED_GROUP_B, start=0.1, end=0.2))
+        sim = make_sim([net, *nodes.values()], 0.7, fault_schedule=fs)
+        for i in range(150):
+            sim.schedule(ev(i * 4_000_000, "tick", nodes[rng.choice(names)]))
+        return Scenario(sim, {"net": net, **nodes}, "determinism", True, 150)
